@@ -13,9 +13,11 @@ import (
 	"encoding/json"
 	"fmt"
 	"os"
+	"regexp"
 	"runtime"
 	"runtime/pprof"
 	"sort"
+	"strconv"
 	"strings"
 	"time"
 
@@ -25,6 +27,7 @@ import (
 
 type job struct {
 	Cases []Case `json:"cases"`
+	Idx   []int  `json:"idx"` // global case numbers, printed before each execution so that a crash can be attributed
 }
 
 type jobOut struct {
@@ -36,8 +39,13 @@ func worker(raw json.RawMessage) any {
 	json.Unmarshal(raw, &j) //nolint:errcheck
 	var out jobOut
 	for i, c := range j.Cases {
+		n := i
+		if i < len(j.Idx) {
+			n = j.Idx[i]
+		}
+		fmt.Fprintf(os.Stderr, "C11-EXEC %d\n", n)
 		if debug {
-			fmt.Fprintf(os.Stderr, "C11-EXEC %d %s %s %v\n", i, c.Conv, classOf(c.Devs), c.Cfg)
+			fmt.Fprintf(os.Stderr, "  %s %s %v\n", c.Conv, classOf(c.Devs), c.Cfg)
 		}
 		out.Results = append(out.Results, execute(c))
 	}
@@ -48,81 +56,105 @@ func sig(c Case, fail string) string {
 	return c.Conv + "/" + classOf(c.Devs) + "/" + fail
 }
 
-// runCases executes the cases in worker processes and returns one result per case; crashed or stalled
-// jobs are bisected by re-running their cases one by one.
-func runCases(run *evid.Run, cases []Case, perJob int) ([]Result, map[int]string) {
+var execMarker = regexp.MustCompile(`C11-EXEC (\d+)\n`)
+
+const maxCrashes = 300
+
+// runCases executes the cases in worker processes and returns one result per case. A worker that dies or
+// stalls is attributed to the case it announced last on stderr; the other cases of its job are run again.
+// (A panic in a library goroutine kills the process, so this is the only way to survive it.)
+func runCases(run *evid.Run, cases []Case, perJob int) []Result {
 	results := make([]Result, len(cases))
-	crashes := map[int]string{} // case index -> "crash"/"hang" + stderr
 	if len(cases) == 0 {
-		return results, crashes
+		return results
 	}
 	// stride distribution: neighbouring (similarly expensive) cases go to different jobs
 	njobs := (len(cases) + perJob - 1) / perJob
-	idx := make([][]int, njobs)
+	groups := make([][]int, njobs)
 	for i := range cases {
-		idx[i%njobs] = append(idx[i%njobs], i)
+		groups[i%njobs] = append(groups[i%njobs], i)
 	}
-	var jobs []any
-	for _, ix := range idx {
-		var j job
-		for _, i := range ix {
-			j.Cases = append(j.Cases, cases[i])
-		}
-		jobs = append(jobs, j)
-	}
-	rs := evid.RunJobs(jobs, 16, 4*time.Minute)
-	var redo []int
-	for ji, r := range rs {
-		if r.Crashed || r.Stalled {
-			redo = append(redo, idx[ji]...)
-			if os.Getenv("C11_VERBOSE") != "" {
-				fmt.Fprintf(os.Stderr, "job %d crashed=%v stalled=%v\n%s\n", ji, r.Crashed, r.Stalled, r.Stderr)
+	crashes := 0
+	for round := 0; len(groups) > 0; round++ {
+		var jobs []any
+		for _, ix := range groups {
+			j := job{Idx: ix}
+			for _, i := range ix {
+				j.Cases = append(j.Cases, cases[i])
 			}
-			continue
+			jobs = append(jobs, j)
 		}
-		var out jobOut
-		if err := json.Unmarshal(r.Output, &out); err != nil || len(out.Results) != len(idx[ji]) {
-			run.Fatal("bad worker output: %v (%d results for %d cases)", err, len(out.Results), len(idx[ji]))
-		}
-		for k, i := range idx[ji] {
-			results[i] = out.Results[k]
-		}
-	}
-	if len(redo) > 0 {
-		var singles []any
-		for _, i := range redo {
-			singles = append(singles, job{Cases: []Case{cases[i]}})
-		}
-		srs := evid.RunJobs(singles, 16, 2*time.Minute)
-		attributed := false
-		for k, r := range srs {
-			i := redo[k]
-			if r.Crashed || r.Stalled {
-				kind := "crash"
-				if r.Stalled {
-					kind = "hang"
+		rs := evid.RunJobs(jobs, 16, 4*time.Minute)
+		var again [][]int
+		for ji, r := range rs {
+			ix := groups[ji]
+			if !r.Crashed && !r.Stalled {
+				var out jobOut
+				if err := json.Unmarshal(r.Output, &out); err != nil || len(out.Results) != len(ix) {
+					run.Fatal("bad worker output: %v (%d results for %d cases)", err, len(out.Results), len(ix))
 				}
-				crashes[i] = kind + "\n" + tail(r.Stderr, 6000)
-				results[i] = Result{Fail: kind, Msg: tail(r.Stderr, 6000)}
-				attributed = true
+				for k, i := range ix {
+					results[i] = out.Results[k]
+				}
 				continue
 			}
-			var out jobOut
-			if err := json.Unmarshal(r.Output, &out); err != nil || len(out.Results) != 1 {
-				run.Fatal("bad worker output on re-run: %v", err)
+			kind := "crash"
+			if r.Stalled {
+				kind = "hang"
 			}
-			results[i] = out.Results[0]
-		}
-		if !attributed {
-			// a worker died but no single case reproduces it
-			for ji, r := range rs {
-				if r.Crashed || r.Stalled {
-					run.Violation("worker/crash-not-reproduced-by-single-case", map[string]any{"cases_in_job": len(idx[ji]), "first_case": cases[idx[ji][0]], "stderr": tail(r.Stderr, 6000)})
+			if os.Getenv("C11_VERBOSE") != "" {
+				fmt.Fprintf(os.Stderr, "job of %d cases: %s\n%s\n", len(ix), kind, tail(r.Stderr, 1500))
+			}
+			culprit := -1
+			if ms := execMarker.FindAllStringSubmatch(r.Stderr, -1); len(ms) > 0 {
+				n, _ := strconv.Atoi(ms[len(ms)-1][1])
+				for _, i := range ix {
+					if i == n {
+						culprit = n
+					}
 				}
 			}
+			if culprit < 0 {
+				if len(ix) == 1 {
+					culprit = ix[0]
+				} else {
+					// no usable marker: run the cases of this job one by one
+					for _, i := range ix {
+						again = append(again, []int{i})
+					}
+					continue
+				}
+			}
+			st := r.Stderr
+			if k := strings.LastIndex(st, "C11-EXEC"); k >= 0 {
+				st = st[k:]
+			}
+			results[culprit] = Result{Fail: kind, Msg: tail(st, 4000)}
+			crashes++
+			var rest []int
+			for _, i := range ix {
+				if i != culprit {
+					rest = append(rest, i)
+				}
+			}
+			if len(rest) > 0 {
+				again = append(again, rest)
+			}
 		}
+		if crashes > maxCrashes && len(again) > 0 {
+			n := 0
+			for _, g := range again {
+				for _, i := range g {
+					results[i] = Result{Skipped: true}
+					n++
+				}
+			}
+			run.Cap(fmt.Sprintf("more than %d executions killed the worker process; %d executions of the affected jobs not run", maxCrashes, n))
+			break
+		}
+		groups = again
 	}
-	return results, crashes
+	return results
 }
 
 func tail(s string, n int) string {
@@ -151,7 +183,7 @@ func main() {
 	}
 	run := evid.New("C11", "fault_enumeration")
 	run.MaxVio = 60 // one replay file per signature; the catalogue is large, root causes are few
-	run.Rule("execution = (base conversation, <=1 deviation in quick / <=2 in thorough, server configuration); base conversations {play-tcp, play-udp, record-tcp, record-udp, http-tunnel GET+POST, websocket upgrade, describe with credentials} as lists of raw requests/frames; deviation catalogue applied at EVERY applicable position: delete/duplicate/overflow(5000 bytes) each header, 300 extra headers, malformed header lines, CSeq / Content-Length / client_port / interleaved / ttl extremes, inconsistent Transport (mode, profile, multicast, protocol switch, lists, garbage), Session (other id, empty, 1000 chars), KeyMgmt garbage, Authorization garbage, Range garbage, request-line faults (method, URL, protocol), 20 invalid SDP bodies, reorder / pipeline / repeat / drop adjacent requests, interleaved frames (valid, unknown channel, length 0 / 65535, RTCP garbage) and binary garbage and responses and HTTP requests inserted at every position, response instead of request, splice of every prefix with every other conversation, tunnel faults (POST without GET, two POSTs, two GETs, cookie mismatch, invalid base64), WebSocket faults (bad handshakes, control/fragment/reserved/oversize frames), truncation of the byte stream at every offset followed by close or by silence; configurations: handlers {all, describeonly} x UDP {on, off} x second well-behaved connection {absent, present} (+TLS in thorough); non-trivial = the hostile connection's observable outcome (status list, point where the server closed it, sessions opened) differs from the undeviated conversation in the same configuration")
+	run.Rule("execution = (base conversation, <=1 deviation in quick / <=2 in thorough, server configuration); base conversations {play-tcp, play-udp, record-tcp, record-udp, http-tunnel GET+POST, websocket upgrade, describe with credentials; under TLS also play-tcp-secure and record-tcp-secure = RTP/SAVP with a well-formed KeyMgmt} as lists of raw requests/frames; deviation catalogue applied at EVERY applicable position: delete/duplicate/overflow(5000 bytes) each header, 300 extra headers, malformed header lines, CSeq / Content-Length / client_port / interleaved / ttl extremes, inconsistent Transport (mode, profile, multicast, protocol switch, lists, garbage), Session (other id, empty, 1000 chars), KeyMgmt garbage, Authorization garbage, Range garbage, request-line faults (method, URL, protocol), 20 invalid SDP bodies, reorder / pipeline / repeat / drop adjacent requests, interleaved frames (valid, unknown channel, length 0 / 65535, RTCP garbage) and binary garbage and responses and HTTP requests inserted at every position, response instead of request, splice of every prefix with every other conversation, tunnel faults (POST without GET, two POSTs, two GETs, cookie mismatch, invalid base64), WebSocket faults (bad handshakes, control/fragment/reserved/oversize frames), truncation of the byte stream at EVERY byte offset followed by close or by silence (quick: every offset once, endings alternating, every third offset for the two secure conversations; thorough: both endings, also with a second connection and under TLS); configurations: thorough = handlers {all, describeonly} x UDP {on, off} x second well-behaved connection {absent, present} plus TLS {without, with second connection}, full catalogue in each; quick = the full catalogue in {all+UDP, all+noUDP+second} and every third deviation in {describeonly+UDP, all+UDP+TLS, describeonly+noUDP+second}; thorough adds two-deviation executions: every single deviation after which the hostile connection was still open, followed by a cut at every later step boundary (close / silence) or a frame (valid / unknown channel) / binary garbage / CSeq-less request / foreign Session id at every later position; non-trivial = the hostile connection's observable outcome (status list, point where the server closed it, sessions opened) differs from the undeviated conversation in the same configuration")
 	run.Assume("quiescence barrier: after every write the harness waits until every library goroutine is blocked (sysx.Settle) and only then reads; virtual time moves only through Env.Advance; wall-clock time is the hang detector only")
 	run.Assume("after the last hostile byte virtual time advances by IdleTimeout+ReadTimeout+WriteTimeout+5 s in 4 steps; by then every hostile connection must have been closed by the server and every session it created must have ended (UDP sessions by their own timeout)")
 	run.Assume("the well-behaved clients speak RTP/AVP/TCP with interleaved ids 0-3 and follow the protocol (keep-alive every quarter of the timeouts); the hostile peer never learns their session ids, so taking over a foreign session is out of scope (C19)")
@@ -164,7 +196,7 @@ func main() {
 		if err := evid.LoadReplay(run.Replay, &d); err != nil {
 			run.Fatal("replay: %v", err)
 		}
-		rs, _ := runCases(run, []Case{d.Case}, 1)
+		rs := runCases(run, []Case{d.Case}, 1)
 		run.Eval(1)
 		if rs[0].Fail != "" {
 			fmt.Println("replay reproduces:", sig(d.Case, rs[0].Fail), "\n", rs[0].Msg)
@@ -186,7 +218,10 @@ func main() {
 	for _, cn := range convNames {
 		control = append(control, Case{Conv: cn, Cfg: cfgFor(cn, baseCfg)})
 	}
-	crs, _ := runCases(run, control, 1)
+	for _, cn := range secureConvNames {
+		control = append(control, Case{Conv: cn, Cfg: Cfg{Handlers: "all", UDP: true, TLS: true}})
+	}
+	crs := runCases(run, control, 1)
 	for i, r := range crs {
 		if os.Getenv("C11_VERBOSE") != "" {
 			fmt.Fprintf(os.Stderr, "control %s: %+v\n", control[i].Conv, r)
@@ -233,6 +268,7 @@ func main() {
 	} else {
 		cfgs = []Cfg{baseCfg, {Handlers: "all", UDP: false, Second: true}, {Handlers: "describeonly", UDP: true},
 			{Handlers: "all", UDP: true, TLS: true}, {Handlers: "describeonly", UDP: false, Second: true}}
+		fullCfgs = 2
 	}
 	if os.Getenv("C11_ONLYCFG") == "tls" {
 		cfgs = []Cfg{{Handlers: "all", UDP: true, TLS: true}}
@@ -245,7 +281,7 @@ func main() {
 	}
 	catalogue := map[string]int{}
 	for ci, cfg := range cfgs {
-		for _, cn := range convNames {
+		for _, cn := range convsFor(cfg.TLS) {
 			c := cfgFor(cn, cfg)
 			if c.Auth && c.Handlers != "all" {
 				continue
@@ -257,7 +293,7 @@ func main() {
 				if d.Op == "no-tls" && !c.TLS {
 					continue
 				}
-				if ci >= fullCfgs && k%3 != ci%3 {
+				if ci >= fullCfgs && k%3 != ci%3 && !strings.HasSuffix(cn, "-secure") {
 					continue
 				}
 				addCase("single", Case{Conv: cn, Devs: []Dev{d}, Cfg: c})
@@ -271,6 +307,10 @@ func main() {
 		c := cfgFor(cn, baseCfg)
 		streamBytes[cn] = streamLen(baseConv(cn))
 		for _, d := range truncDevs(cn, []string{"close", "silent"}, 1) {
+			// quick: every offset once; the ending alternates with the offset (even: close, odd: silence)
+			if !run.Thorough() && (d.Pos%2 == 0) != (d.Val == "close") {
+				continue
+			}
 			addCase("truncate", Case{Conv: cn, Devs: []Dev{d}, Cfg: c})
 		}
 		if run.Thorough() {
@@ -280,6 +320,18 @@ func main() {
 					addCase("truncate", Case{Conv: cn, Devs: []Dev{d}, Cfg: c2})
 				}
 			}
+		}
+	}
+	for _, cn := range secureConvNames {
+		c := Cfg{Handlers: "all", UDP: true, TLS: true}
+		streamBytes[cn] = streamLen(baseConv(cn))
+		for _, d := range truncDevs(cn, []string{"close", "silent"}, 1) {
+			// quick: every third offset of the secure conversations (they differ from play-tcp / record-tcp only
+			// in the SETUP headers), endings alternating
+			if !run.Thorough() && (d.Pos%3 != 0 || (d.Pos%2 == 0) != (d.Val == "close")) {
+				continue
+			}
+			addCase("truncate", Case{Conv: cn, Devs: []Dev{d}, Cfg: c})
 		}
 	}
 	run.Set("stream_bytes_per_conversation", streamBytes)
@@ -346,7 +398,7 @@ func main() {
 	if run.Thorough() {
 		budget = 13 * time.Minute
 	}
-	results, _ := runCases(run, cases, 40)
+	results := runCases(run, cases, 40)
 	process(cases, results)
 	run.Set("round1_wall_s", int(run.Elapsed().Seconds()))
 
@@ -405,19 +457,27 @@ func main() {
 				break
 			}
 			n := min(len(pairs)-done, 4000)
-			rs, _ := runCases(run, pairs[done:done+n], 40)
+			rs := runCases(run, pairs[done:done+n], 40)
 			process(pairs[done:done+n], rs)
 			done += n
 		}
 		run.Set("pairs_run", done)
 	}
 
-	// ---- confirm and report
+	// ---- confirm and report: the first case of every new signature is run twice more (all in one batch)
 	var sigs []string
 	for s := range bySig {
 		sigs = append(sigs, s)
 	}
 	sort.Strings(sigs)
+	var confirm []Case
+	for _, s := range sigs {
+		if !run.IsKnown(s) {
+			confirm = append(confirm, bySig[s][0].c, bySig[s][0].c)
+		}
+	}
+	rr := runCases(run, confirm, 20)
+	k := 0
 	for _, s := range sigs {
 		vs := bySig[s]
 		if run.IsKnown(s) {
@@ -426,16 +486,15 @@ func main() {
 			}
 			continue
 		}
-		// deterministic? re-run the first case twice
 		first := vs[0]
-		rr, _ := runCases(run, []Case{first.c, first.c}, 1)
 		confirmed := 0
-		for _, r := range rr {
+		for _, r := range rr[k : k+2] {
 			if r.Fail == first.r.Fail {
 				confirmed++
 			}
 		}
-		if confirmed == 0 && !strings.HasSuffix(s, "/crash") {
+		k += 2
+		if confirmed == 0 && first.r.Fail != "crash" {
 			run.Flaky(fmt.Sprintf("%s did not reproduce (2 re-runs): %s", s, first.r.Msg))
 			continue
 		}
